@@ -51,8 +51,11 @@ def one(sid, tier, all_checks, confirm):
             t = subprocess.run(PINNED, cwd=root, env=e, capture_output=True, text=True)
             res['pinned_suite_passes_with_change'] = t.returncode == 0
             demo = os.path.join(d, 'demo.py')
-            a = subprocess.run(['/venv/bin/python', demo], env=dict(os.environ, PYTHONPATH='/repo'), cwd=tempfile.gettempdir(), capture_output=True, text=True)
-            b = subprocess.run(['/venv/bin/python', demo], env=dict(os.environ, PYTHONPATH=root), cwd=tempfile.gettempdir(), capture_output=True, text=True)
+            # the demos make scratch directories of their own: inside the copy, which is removed below
+            scratch = os.path.join(root, '.demo_scratch')
+            os.makedirs(scratch, exist_ok=True)
+            a = subprocess.run(['/venv/bin/python', demo], env=dict(os.environ, PYTHONPATH='/repo', TMPDIR=scratch), cwd=scratch, capture_output=True, text=True)
+            b = subprocess.run(['/venv/bin/python', demo], env=dict(os.environ, PYTHONPATH=root, TMPDIR=scratch), cwd=scratch, capture_output=True, text=True)
             res['demo_without_change'] = a.returncode
             res['demo_with_change'] = b.returncode
         res['own'] = run_check(meta['property'], root, tier)
